@@ -14,7 +14,7 @@ from props.common import run, fingerprint, sched_kwargs, schedule_modes, hit, co
 from world.sim import SimPool, EXC
 
 ID = "C12"
-LEAN_MODULES = ["MoreExec.Props.C12", "MoreExec.Props.C11"]
+LEAN_MODULES = ["MoreExec.Props.C12", "MoreExec.Props.C11", "MoreExec.Props.C08"]
 THEOREMS = [
     "MoreExec.Lifecycle.C12_pending_keeps_alive",
     "MoreExec.Lifecycle.C12_worker_not_stuck",
@@ -22,8 +22,9 @@ THEOREMS = [
     "MoreExec.Lifecycle.C12_collected_not_in_iteration",
     "MoreExec.Lifecycle.C12_source_facts",
     "MoreExec.Shutdown.C11_join_means_exited",
+    "MoreExec.Poll.C08_source_facts",
 ]
-KERNELS = ["K14", "K10"]
+KERNELS = ["K14", "K10", "K17"]
 BUDGET = {"quick": 150, "thorough": 1500}
 ASSUMPTIONS = [
     "CPython reference counting, the cycle collector and atexit are trusted; the model represents them as counts and a `collect` action",
@@ -61,6 +62,13 @@ def gen_scenarios(seed, tier):
             # (the callables outlive the observation: no later completion can wake the thread a second time and mask a lost wake-up)
             d.update(kind="timeout", tmo=1.0, when=1.0, nsub=rng.choice([1, 2, 3]), durs=[500.0, 500.0, 500.0],
                      trigger=rng.choice(["shutdown", "exit"]), cancel_before=False)
+            if rng.random() < 0.6:
+                d.update(mode="hold", p_switch=rng.choice([0.0, 0.02, 0.1]), trace_lines=True)
+        if i % 10 == 2:
+            # a poll future cancelled at the very instant its delegate finishes and it is being registered for polling: however the
+            # cancel and the registration interleave, the done future (and the delegate's result in its descriptor) is not retained
+            dur = rng.choice([0.5, 1.0, 2.0])
+            d.update(kind="poll", trigger="release", cancel_one=True, nsub=1, durs=[dur, dur, dur], when=dur, cancel_before=False, keep=True)
             if rng.random() < 0.6:
                 d.update(mode="hold", p_switch=rng.choice([0.0, 0.02, 0.1]), trace_lines=True)
         if i % 10 == 9:
